@@ -204,6 +204,10 @@ func (t *tr) evIdent(x *ast.Ident) Term {
 			t.assume(t.typeInv(r, ob.Type(), t.cur.Env))
 			return r
 		}
+		if t.escaped[ob] {
+			cell := t.escapedCell(ob)
+			return t.loadPtr(cell, x.Pos())
+		}
 		v := t.localVar(ob)
 		return t.read(v)
 	case *types.Func:
@@ -451,6 +455,12 @@ func (t *tr) evAddrOf(x *ast.UnaryExpr) Term {
 		t.storePtr(p, v, x.Pos())
 		return p
 	}
+	if id, ok := inner.(*ast.Ident); ok {
+		if o, ok := t.info.ObjectOf(id).(*types.Var); ok && t.escaped[o] {
+			t.V.note("address-taken local in " + t.u.Key + ": modelled as a heap cell; type punning through unsafe casts is not tracked")
+			return t.escapedCell(o)
+		}
+	}
 	t.errorf(x.Pos(), "address-of (&%s) outside call arguments is not supported", exprString(inner))
 	return t.havocTerm("addr", T)
 }
@@ -665,4 +675,19 @@ func (t *tr) noteCtxDone(ch ast.Expr) {
 	t.assign(clock, add(t.read(clock), intLit(1)))
 	t.V.W.declFun("sf$ctxDoneAt", []string{SInt, SInt}, SBool)
 	t.assume(app("sf$ctxDoneAt", SBool, ctx, t.read(clock)))
+}
+
+// escapedCell returns the reference of the heap cell holding an address-taken local (allocated on first use).
+func (t *tr) escapedCell(o *types.Var) Term {
+	cv := t.newVar("cell$"+o.Name(), SInt, types.NewPointer(o.Type()), false)
+	if _, ok := t.cur.Env[cv]; !ok && t.cur != nil {
+		// first use on this path: allocate and zero-initialise
+		p := t.alloc()
+		p.T = types.NewPointer(o.Type())
+		t.assign(cv, p)
+		t.storePtr(p, t.V.W.zero(o.Type()), token.NoPos)
+	}
+	r := t.read(cv)
+	r.T = types.NewPointer(o.Type())
+	return r
 }
